@@ -218,6 +218,24 @@ theorem default_fields (m : UInt64) (hm : 0 < m.toNat) :
   have h0 : (0 : UInt64) < m := by rw [UInt64.lt_iff_toNat_lt]; exact hm
   exact ⟨h0, h0⟩
 
+theorem clampLimit_pos (l m : UInt64) (hl : 1 ≤ l.toNat) (hm : 3 ≤ m.toNat) :
+    1 ≤ (clampLimit l m).toNat := by
+  unfold clampLimit; split <;> omega
+
+theorem clampLimit_le (l m : UInt64) : (clampLimit l m).toNat ≤ m.toNat := by
+  unfold clampLimit
+  split
+  · exact Nat.le_refl _
+  · rename_i h
+    simp only [GT.gt, UInt64.lt_iff_toNat_lt, Nat.not_lt] at h
+    exact h
+
+theorem clampLimit_of_le (l m : UInt64) (h : l.toNat ≤ m.toNat) : clampLimit l m = l := by
+  unfold clampLimit
+  rw [if_neg]
+  simp only [GT.gt, UInt64.lt_iff_toNat_lt, Nat.not_lt]
+  exact h
+
 theorem new_spec {c : Config} {s : Sim} (h : Sim.new c = some s) :
     s.WF ∧ s.CodeOK ∧ s.m = c.coreSize := by
   unfold Sim.new at h
@@ -232,7 +250,8 @@ theorem new_spec {c : Config} {s : Sim} (h : Sim.new c = some s) :
       have h1 : (1 : UInt64).toNat = 1 := rfl
       repeat' (split at hv; · simp at hv)
       simp only [UInt64.lt_iff_toNat_lt, h3, h1, Nat.not_lt] at *
-      refine ⟨?_, by assumption, by assumption, by assumption, by assumption, by assumption,
+      refine ⟨?_, by assumption, clampLimit_pos _ _ (by assumption) (by assumption),
+        clampLimit_pos _ _ (by assumption) (by assumption), by assumption, by assumption,
         ?_, rfl, rfl, ?_, rfl, ?_⟩
       · simp only [Array.size_replicate]
       · intro i hi
